@@ -2,7 +2,8 @@
     ONLY statements pinned here; proofs live in Dashu.Int.ModRing*. *)
 From Dashu Require Import Base.Prelude Base.Words Int.ModRingSpec Int.ModRingSpecProofs
   Int.ModRingPowModel Int.ModRingPowProofs Int.ModRingModel Int.ModRingProofs Int.ModRingOpsProofs
-  Int.ModRingMain Int.ModRingExpr Int.ModRingInst Int.ModRingInstProofs.
+  Int.ModRingMain Int.ModRingExpr Int.ModRingInst Int.ModRingInstProofs
+  Int.DivWordModel Int.ModRingWords Int.ModRingWordsProofs.
 Open Scope Z_scope.
 
 (** ---------------- what the statement demands of the specification ---------------- *)
@@ -261,3 +262,60 @@ Theorem C13_F03_reducer_check_refuted : forall w, 2 <= w -> forall r, ring_wf w 
   forall x y, x + y = nd r -> rd_add_with w false r x y = Ok (nd r).
 Proof. exact rd_check_prefix_refuted. Qed.
 Print Assumptions C13_F03_reducer_check_refuted.
+
+(** ---------------- word-level layout of the multi-word ring (every word size >= 2) ---------------- *)
+(** ReducedLarge::is_valid (as repaired) holds exactly for the reduced forms: len = modulus len, raw = residue << shift *)
+Theorem C13_words_is_valid_iff : forall w, 2 <= w -> forall R r raw, lring_ok w R r -> ring_wf w r -> Words.wf w raw ->
+  (wl_is_valid R raw = true <->
+   length raw = length (lr_nd R) /\ exists x, 0 <= x < r_m r /\ Words.value w raw = x * 2 ^ r_shift r).
+Proof. exact wl_is_valid_iff. Qed.
+Print Assumptions C13_words_is_valid_iff.
+
+Theorem C13_words_is_valid_value : forall w, 2 <= w -> forall R r raw, lring_ok w R r -> ring_wf w r -> Words.wf w raw ->
+  length raw = length (lr_nd R) -> wl_is_valid R raw = is_valid r (Words.value w raw).
+Proof. exact wl_is_valid_value. Qed.
+Print Assumptions C13_words_is_valid_value.
+
+(** F03 at word level: the pre-repair test (is_le) accepted the normalised divisor itself *)
+Theorem C13_words_F03_is_valid_prefix_refuted : forall w, 2 <= w -> forall R r, lring_ok w R r -> ring_wf w r ->
+  wl_is_valid_prefix R (lr_nd R) = true /\ wl_is_valid R (lr_nd R) = false.
+Proof. exact wl_is_valid_prefix_refuted. Qed.
+Print Assumptions C13_words_F03_is_valid_prefix_refuted.
+
+(** the carry / borrow kernels on word lists return, for ALL well-formed operands of the ring's length (valid or not),
+    exactly the result of the value-level model - words in range, length kept, debug assertions included *)
+Theorem C13_words_add_refines : forall w, 2 <= w -> forall R r lhs rhs, lring_ok w R r -> ring_wf w r ->
+  Words.wf w lhs -> Words.wf w rhs -> length lhs = length (lr_nd R) -> length rhs = length (lr_nd R) ->
+  refines w (length (lr_nd R)) (wl_add_in_place w R lhs rhs) (raw_of (add_asis w (abs w r lhs) (abs w r rhs))).
+Proof. exact wl_add_refines. Qed.
+Print Assumptions C13_words_add_refines.
+
+Theorem C13_words_sub_refines : forall w, 2 <= w -> forall R r lhs rhs, lring_ok w R r -> ring_wf w r ->
+  Words.wf w lhs -> Words.wf w rhs -> length lhs = length (lr_nd R) -> length rhs = length (lr_nd R) ->
+  refines w (length (lr_nd R)) (wl_sub_in_place w R lhs rhs) (raw_of (sub_asis w (abs w r lhs) (abs w r rhs))).
+Proof. exact wl_sub_refines. Qed.
+Print Assumptions C13_words_sub_refines.
+
+Theorem C13_words_dbl_neg_refine : forall w, 2 <= w -> forall R r raw, lring_ok w R r -> ring_wf w r ->
+  Words.wf w raw -> length raw = length (lr_nd R) ->
+  refines w (length (lr_nd R)) (wl_dbl w R raw) (raw_of (dbl_asis w (abs w r raw))) /\
+  refines w (length (lr_nd R)) (wl_neg w R raw) (raw_of (neg_asis (abs w r raw))).
+Proof. intros w Hw R r raw H1 H2 H3 H4. split; [exact (wl_dbl_refines w Hw R r raw H1 H2 H3 H4) | exact (wl_neg_refines w Hw R r raw H1 H2 H3 H4)]. Qed.
+Print Assumptions C13_words_dbl_neg_refine.
+
+(** property level on word lists: reduced forms in, reduced forms of the integer results out *)
+Theorem C13_words_ring_ops : forall w, 2 <= w -> forall R r x y a b, lring_ok w R r -> ring_wf w r ->
+  wrep w R r x a -> wrep w R r y b ->
+  (exists c, wl_add_in_place w R a b = Ok c /\ wrep w R r (x + y) c) /\
+  (exists c, wl_sub_in_place w R a b = Ok c /\ wrep w R r (x - y) c) /\
+  (exists c, wl_dbl w R a = Ok c /\ wrep w R r (2 * x) c) /\
+  (exists c, wl_neg w R a = Ok c /\ wrep w R r (- x) c) /\
+  (exists c, wl_residue w R a = Ok c /\ Words.wf w c /\ Words.value w c = x mod r_m r) /\
+  words_eqb a b = (x mod r_m r =? y mod r_m r).
+Proof. exact wl_ring_ops. Qed.
+Print Assumptions C13_words_ring_ops.
+
+Theorem C13_words_one : forall w, 2 <= w -> forall R r f2, lring_ok w R r -> ring_wf w r ->
+  Words.wf w (wl_one R) /\ length (wl_one R) = length (lr_nd R) /\ raw_one w f2 r = Ok (Words.value w (wl_one R)).
+Proof. exact wl_one_ok. Qed.
+Print Assumptions C13_words_one.
